@@ -257,6 +257,16 @@ func Deref(v ssa.Value) ssa.Value {
 // following phis, extracts, conversions, loads of local cells (through their
 // stores), field/index selections and slices. Bounded, cycle-safe.
 func DerivesFrom(v ssa.Value, src func(ssa.Value) bool) bool {
+	return derives(v, src, false)
+}
+
+// InfluencedBy is DerivesFrom that also flows through the arguments and
+// receivers of calls (the result of f(x) is influenced by x).
+func InfluencedBy(v ssa.Value, src func(ssa.Value) bool) bool {
+	return derives(v, src, true)
+}
+
+func derives(v ssa.Value, src func(ssa.Value) bool, throughCalls bool) bool {
 	seen := map[ssa.Value]bool{}
 	var rec func(v ssa.Value, depth int) bool
 	rec = func(v ssa.Value, depth int) bool {
@@ -314,6 +324,25 @@ func DerivesFrom(v ssa.Value, src func(ssa.Value) bool) bool {
 			return rec(x.X, depth+1)
 		case *ssa.BinOp:
 			return rec(x.X, depth+1) || rec(x.Y, depth+1)
+		case *ssa.Call:
+			_, isBuiltin := x.Call.Value.(*ssa.Builtin)
+			if isBuiltin || throughCalls {
+				for _, a := range x.Call.Args {
+					if rec(a, depth+1) {
+						return true
+					}
+				}
+				if throughCalls && x.Call.IsInvoke() {
+					return rec(x.Call.Value, depth+1)
+				}
+			}
+		case *ssa.Alloc:
+			// a local cell used as a value (address passed on): what was stored
+			for _, st := range storesInto(x) {
+				if rec(st.Val, depth+1) {
+					return true
+				}
+			}
 		}
 		return false
 	}
